@@ -246,8 +246,8 @@ Lemma wstep_facts fl w e :
   (winv w -> forall r, In r (w_out w') -> In r (w_out w) \/ is_panic r = false).
 Proof.
   destruct e; cbn [wstep].
-  1-2: match goal with |- context [do_cmd fl w ?c] =>
-         pose proof (do_cmd_facts fl w c) as (F1 & F2 & F3 & F4 & F5 & F6) end;
+  1-2: match goal with |- context [do_cmd ?a ?b ?c] =>
+         pose proof (do_cmd_facts a b c) as (F1 & F2 & F3 & F4 & F5 & F6) end;
        cbn zeta; repeat split; auto; try (apply F2; assumption); try (apply F3; assumption);
        [ intros Hc; cbn [ext_step]; apply F4; intros [Ht Hq]; unfold commits in Hc; cbn [ev_cmd] in Hc;
          rewrite Ht, Hq in Hc; discriminate
@@ -277,3 +277,449 @@ Proof.
   induction evs as [|e evs IH]; intros w H; [exact H|].
   rewrite run_cons. apply IH. apply wstep_facts. exact H.
 Qed.
+
+(** * snapshot_stable *)
+
+Theorem snapshot_stable fl evs : forall w,
+  s_state (w_sess w) = Trans ->
+  s_state (w_sess (run fl w evs)) = Trans ->
+  s_msgs (w_sess (run fl w evs)) = s_msgs (w_sess w) /\
+  s_user (w_sess (run fl w evs)) = s_user (w_sess w).
+Proof.
+  induction evs as [|e evs IH]; intros w Ht Hf; [split; reflexivity|].
+  rewrite run_cons in *.
+  destruct (wstep_facts fl w e) as (_ & F2 & _ & _ & _ & _).
+  destruct (F2 Ht) as (A & B & [C|C]).
+  - destruct (IH _ C Hf). split; congruence.
+  - rewrite (closed_stays fl evs _ C) in Hf. discriminate.
+Qed.
+
+(** The snapshot is the mailbox as the store had it when the login command was processed,
+    whatever happens to the store and whatever is sent afterwards. *)
+Theorem snapshot_is_login_store fl w e evs :
+  s_state (w_sess w) = Auth ->
+  s_state (w_sess (wstep fl w e)) = Trans ->
+  s_state (w_sess (run fl (wstep fl w e) evs)) = Trans ->
+  s_msgs (w_sess (run fl (wstep fl w e) evs)) =
+  load (w_store w) (s_user (w_sess (run fl (wstep fl w e) evs))).
+Proof.
+  intros Ha Ht Hf.
+  destruct (wstep_facts fl w e) as (_ & _ & F3 & _).
+  destruct (F3 Ha Ht) as (A & _).
+  destruct (snapshot_stable fl evs _ Ht Hf) as (B & C).
+  rewrite B, C. exact A.
+Qed.
+
+(** * Listings *)
+
+Fixpoint rows_of {A : Type} (f : snap -> A) (i : N) (ms : list snap) (rt : list bool) : list (N * A) :=
+  match ms, rt with
+  | m :: ms', r :: rt' => if r then (i, f m) :: rows_of f (i + 1) ms' rt' else rows_of f (i + 1) ms' rt'
+  | _, _ => []
+  end.
+
+Lemma rows_loop_eq {A} (f : snap -> A) ms : forall rt i,
+  length rt = length ms -> rows_loop f i ms rt = Some (rows_of f i ms rt).
+Proof.
+  induction ms as [|m ms IH]; intros [|r rt] i H; cbn [rows_loop rows_of]; try discriminate; [reflexivity|].
+  cbn [length] in H. rewrite IH by lia. reflexivity.
+Qed.
+
+Lemma rows_of_fst {A B} (f : snap -> A) (g : snap -> B) ms : forall rt i,
+  map fst (rows_of f i ms rt) = map fst (rows_of g i ms rt).
+Proof.
+  induction ms as [|m ms IH]; intros [|r rt] i; cbn [rows_of]; try reflexivity.
+  destruct r; cbn [map fst]; rewrite IH; reflexivity.
+Qed.
+
+Fixpoint count_true (l : list bool) : nat :=
+  match l with [] => O | b :: l' => if b then S (count_true l') else count_true l' end.
+
+Lemma rows_of_length {A} (f : snap -> A) ms : forall rt i,
+  length rt = length ms -> length (rows_of f i ms rt) = count_true rt.
+Proof.
+  induction ms as [|m ms IH]; intros [|r rt] i H; cbn [rows_of count_true]; try discriminate; [reflexivity|].
+  cbn [length] in H. destruct r; cbn [length]; rewrite IH by lia; reflexivity.
+Qed.
+
+Lemma stat_loop_eq ms : forall rt i c z,
+  length rt = length ms ->
+  stat_loop ms rt c z =
+  Some (c + N.of_nat (length (rows_of p_size i ms rt)), z + sum_sizes (rows_of p_size i ms rt)).
+Proof.
+  induction ms as [|m ms IH]; intros [|r rt] i c z H; cbn [stat_loop rows_of]; try discriminate.
+  - cbn. f_equal. f_equal; lia.
+  - cbn [length] in H. destruct r; rewrite (IH rt (i + 1)) by lia; cbn [length sum_sizes fold_right snd];
+      f_equal; f_equal; unfold sum_sizes; lia.
+Qed.
+
+(** Row (n, v) is listed iff message n is in the snapshot, not marked, and v is its value. *)
+Lemma rows_of_in {A} (f : snap -> A) ms : forall rt i n v,
+  In (n, v) (rows_of f i ms rt) <->
+  exists k m, n = i + N.of_nat k /\ nth_error rt k = Some true /\ nth_error ms k = Some m /\ v = f m.
+Proof.
+  induction ms as [|m ms IH]; intros rt i n v.
+  - cbn [rows_of]. split; [intros []|]. intros (k & m & _ & _ & H & _). destruct k; discriminate.
+  - destruct rt as [|r rt].
+    + cbn [rows_of]. split; [intros []|]. intros (k & m' & _ & H & _). destruct k; discriminate.
+    + cbn [rows_of].
+      assert (Hrec : In (n, v) (rows_of f (i + 1) ms rt) <->
+                     exists k m', n = i + N.of_nat (S k) /\ nth_error rt k = Some true /\
+                                  nth_error ms k = Some m' /\ v = f m').
+      { rewrite IH. split; intros (k & m' & E & R); exists k, m'; split; try exact R; lia. }
+      destruct r.
+      * cbn [In]. rewrite Hrec. split.
+        -- intros [E|(k & m' & E & R)].
+           ++ inversion E; subst. exists O, m. cbn. repeat split; auto. lia.
+           ++ exists (S k), m'. cbn [nth_error]. split; [exact E|exact R].
+        -- intros (k & m' & E & R1 & R2 & R3). destruct k as [|k].
+           ++ left. cbn in R2. inversion R2; subst. f_equal. lia.
+           ++ right. exists k, m'. cbn [nth_error] in R1, R2. auto.
+      * rewrite Hrec. split.
+        -- intros (k & m' & E & R). exists (S k), m'. cbn [nth_error]. split; [exact E|exact R].
+        -- intros (k & m' & E & R1 & R2 & R3). destruct k as [|k]; [discriminate R1|].
+           exists k, m'. cbn [nth_error] in R1, R2. auto.
+Qed.
+
+(** msgCount is the number of unmarked messages. *)
+Definition cinv (s : sess) : Prop := s_count s = Z.of_nat (count_true (s_retain s)).
+
+Lemma count_true_all {A} (l : list A) : count_true (map (fun _ => true) l) = length l.
+Proof. induction l; cbn; auto. Qed.
+
+Lemma count_true_set_false i : forall l,
+  nth_error l i = Some true -> S (count_true (set_nth i false l)) = count_true l.
+Proof.
+  induction i as [|i IH]; intros [|b l] H; cbn in H; try discriminate.
+  - inversion H; subst. reflexivity.
+  - cbn [set_nth count_true]. destruct b; rewrite <- (IH l H); reflexivity.
+Qed.
+
+Lemma retain_all_cinv s : cinv (retain_all s).
+Proof. unfold cinv, retain_all. cbn. rewrite count_true_all, lenN_length. lia. Qed.
+
+Lemma trans_handler_cinv fl st s c args s' r st' :
+  trans_handler fl st s c args = (s', r, st') -> cinv s -> cinv s'.
+Proof.
+  unfold trans_handler, one_arg_reply. intros H Hc.
+  destruct c; repeat break_match_in H; inversion H; subst; clear H;
+    try exact Hc; try apply retain_all_cinv.
+  unfold cinv in *. cbn.
+  match goal with Hn : nth_error _ _ = Some true |- _ => apply count_true_set_false in Hn end. lia.
+Qed.
+
+Lemma auth_handler_cinv st s c args : cinv s -> cinv (fst (auth_handler st s c args)).
+Proof.
+  unfold auth_handler, login. intros Hc.
+  destruct c; repeat break_match; cbn [fst]; try exact Hc;
+    unfold cinv; cbn; rewrite ?count_true_all, ?map_length, ?lenN_length, ?map_length; try lia; exact Hc.
+Qed.
+
+Lemma step_cinv fl st s c : cinv s -> cinv (fst (fst (step fl st s c))).
+Proof.
+  unfold step. intros Hc. destruct c as [| | |n args]; try exact Hc.
+  destruct (s_state s).
+  - pose proof (auth_handler_cinv st s n args Hc). destruct (auth_handler st s n args). exact H.
+  - destruct (trans_handler fl st s n args) as [[s1 r1] st1] eqn:Et.
+    pose proof (trans_handler_cinv _ _ _ _ _ _ _ _ Et Hc).
+    destruct (is_panic r1); exact H.
+  - exact Hc.
+Qed.
+
+Lemma wstep_cinv fl w e : cinv (w_sess w) -> cinv (w_sess (wstep fl w e)).
+Proof.
+  intros Hc. destruct e; cbn [wstep w_sess with_store]; try exact Hc.
+  1-2: unfold do_cmd; destruct (is_open w); [|exact Hc];
+       match goal with |- context [step ?a ?b ?c ?d] =>
+         pose proof (step_cinv a b c d Hc); destruct (step a b c d) as [[s1 r1] st1] end;
+       destruct (w_wfail w); exact H.
+Qed.
+
+Lemma run_cinv fl evs : forall w, cinv (w_sess w) -> cinv (w_sess (run fl w evs)).
+Proof.
+  induction evs as [|e evs IH]; intros w H; [exact H|].
+  rewrite run_cons. apply IH. apply wstep_cinv. exact H.
+Qed.
+
+(** * stat_list_uidl_agree *)
+
+Definition listing (s : sess) : list (N * N) := rows_of p_size 1 (s_msgs s) (s_retain s).
+Definition uid_listing (s : sess) : list (N * str) := rows_of p_id 1 (s_msgs s) (s_retain s).
+
+Theorem stat_list_uidl_agree fl st0 evs :
+  let w := run fl (init_world st0) evs in
+  let s := w_sess w in
+  s_state s = Trans ->
+  step fl (w_store w) s (CCmd LIST []) =
+    (s, with_body (mk true [Z.of_nat (length (listing s))]) (BList (listing s)), w_store w) /\
+  step fl (w_store w) s (CCmd UIDL []) =
+    (s, with_body (mk true [Z.of_nat (length (listing s))]) (BUidl (uid_listing s)), w_store w) /\
+  step fl (w_store w) s (CCmd STAT []) =
+    (s, mk true [Z.of_nat (length (listing s)); Z.of_N (sum_sizes (listing s))], w_store w) /\
+  map fst (listing s) = map fst (uid_listing s) /\
+  (forall n v, In (n, v) (listing s) <->
+     exists k m, n = 1 + N.of_nat k /\ nth_error (s_retain s) k = Some true /\
+                 nth_error (s_msgs s) k = Some m /\ v = p_size m) /\
+  (forall n id, In (n, id) (uid_listing s) <->
+     exists k m, n = 1 + N.of_nat k /\ nth_error (s_retain s) k = Some true /\
+                 nth_error (s_msgs s) k = Some m /\ id = p_id m).
+Proof.
+  cbn zeta. set (w := run fl (init_world st0) evs). intros Ht.
+  assert (Hi : inv (w_sess w)) by (apply run_inv, init_inv).
+  assert (Hc : cinv (w_sess w)) by (apply run_cinv; reflexivity).
+  unfold listing, uid_listing, step. rewrite Ht. cbn [trans_handler].
+  rewrite !rows_loop_eq by exact Hi.
+  rewrite (stat_loop_eq _ _ 1) by exact Hi.
+  unfold cinv in Hc. rewrite Hc.
+  rewrite !rows_of_length by exact Hi.
+  cbn [is_panic with_body r_body mk].
+  repeat split.
+  - f_equal. f_equal. f_equal; f_equal; lia.
+  - apply rows_of_fst.
+  - apply rows_of_in.
+  - apply rows_of_in.
+  - apply rows_of_in.
+  - apply rows_of_in.
+Qed.
+
+(** * rset_unmarks_all *)
+
+Fixpoint numbered {A : Type} (f : snap -> A) (i : N) (ms : list snap) : list (N * A) :=
+  match ms with [] => [] | m :: ms' => (i, f m) :: numbered f (i + 1) ms' end.
+
+Lemma rows_of_all {A} (f : snap -> A) ms : forall i,
+  rows_of f i ms (map (fun _ => true) ms) = numbered f i ms.
+Proof. induction ms as [|m ms IH]; intros i; cbn; [reflexivity|]. rewrite IH. reflexivity. Qed.
+
+Theorem rset_unmarks_all fl st s args :
+  s_state s = Trans ->
+  exists s',
+    step fl st s (CCmd RSET args) = (s', r_plus, st) /\
+    s_state s' = Trans /\ s_msgs s' = s_msgs s /\ s_user s' = s_user s /\
+    s_retain s' = map (fun _ => true) (s_msgs s) /\
+    s_count s' = Z.of_nat (length (s_msgs s)) /\
+    listing s' = numbered p_size 1 (s_msgs s) /\
+    uid_listing s' = numbered p_id 1 (s_msgs s).
+Proof.
+  intros Ht. exists (retain_all s). unfold step. rewrite Ht. cbn [trans_handler is_panic r_plus mk r_body].
+  unfold listing, uid_listing, retain_all. cbn.
+  rewrite !rows_of_all, lenN_length. repeat split; auto. lia.
+Qed.
+
+(** * quit_deletes_exactly_marked *)
+
+Lemma str_eqb_sym a b : str_eqb a b = str_eqb b a.
+Proof.
+  destruct (str_eqb a b) eqn:E1; destruct (str_eqb b a) eqn:E2; try reflexivity.
+  - apply str_eqb_eq in E1. subst. rewrite str_eqb_refl in E2. discriminate.
+  - apply str_eqb_eq in E2. subst. rewrite str_eqb_refl in E1. discriminate.
+Qed.
+
+Lemma get_box_upd st u f : forall name,
+  get_box (upd_box st u f) name =
+  if str_eqb u name then (if has_box st u then f (get_box st u) else empty_box) else get_box st name.
+Proof.
+  induction st as [|[n b] st IH]; intros name; cbn [upd_box get_box has_box].
+  - destruct (str_eqb u name); reflexivity.
+  - destruct (str_eqb n u) eqn:E.
+    + apply str_eqb_eq in E. subst n. cbn [get_box orb].
+      destruct (str_eqb u name); reflexivity.
+    + cbn [get_box orb]. rewrite IH.
+      destruct (str_eqb u name) eqn:E2.
+      * apply str_eqb_eq in E2. subst name. rewrite E. reflexivity.
+      * destruct (str_eqb n name); reflexivity.
+Qed.
+
+Lemma get_box_no_box st u : has_box st u = false -> get_box st u = empty_box.
+Proof.
+  induction st as [|[n b] st IH]; cbn [has_box get_box]; [reflexivity|].
+  destruct (str_eqb n u); cbn [orb]; [discriminate|exact IH].
+Qed.
+
+Lemma remove_msg_box st u id name :
+  mmsgs (get_box (remove_msg st u id) name) =
+  if str_eqb u name then filter (id_neqb id) (mmsgs (get_box st name)) else mmsgs (get_box st name).
+Proof.
+  unfold remove_msg. rewrite get_box_upd.
+  destruct (str_eqb u name) eqn:E; [|reflexivity].
+  apply str_eqb_eq in E. subst name.
+  destruct (has_box st u) eqn:Eh; [reflexivity|].
+  rewrite get_box_no_box by exact Eh. reflexivity.
+Qed.
+
+Lemma remove_msg_next st u id name : mnext (get_box (remove_msg st u id) name) = mnext (get_box st name).
+Proof.
+  unfold remove_msg. rewrite get_box_upd.
+  destruct (str_eqb u name) eqn:E; [|reflexivity].
+  apply str_eqb_eq in E. subst name.
+  destruct (has_box st u) eqn:Eh; [reflexivity|].
+  rewrite get_box_no_box by exact Eh. reflexivity.
+Qed.
+
+(** The message with this id is marked deleted in the session. *)
+Definition marked_in (ms : list snap) (rt : list bool) (m : smsg) : bool :=
+  existsb (fun pr => negb (snd pr) && str_eqb (sid m) (p_id (fst pr))) (combine ms rt).
+Definition marked_msg (s : sess) (m : smsg) : bool := marked_in (s_msgs s) (s_retain s) m.
+
+Lemma filter_filter_and {A} (f g : A -> bool) l :
+  filter g (filter f l) = filter (fun x => f x && g x) l.
+Proof.
+  induction l as [|x l IH]; [reflexivity|]. cbn [filter].
+  destruct (f x); cbn [filter andb]; [destruct (g x)|]; rewrite IH; reflexivity.
+Qed.
+
+Lemma filter_ext' {A} (f g : A -> bool) l : (forall x, f x = g x) -> filter f l = filter g l.
+Proof. intros H. induction l as [|x l IH]; [reflexivity|]. cbn [filter]. rewrite H, IH. reflexivity. Qed.
+
+Lemma process_deletes_box u name ms : forall rt st st',
+  process_deletes u ms rt st = Some st' ->
+  mmsgs (get_box st' name) =
+  if str_eqb u name then filter (fun m => negb (marked_in ms rt m)) (mmsgs (get_box st name))
+  else mmsgs (get_box st name).
+Proof.
+  induction ms as [|p ms IH]; intros rt st st' H.
+  - cbn in H. inversion H; subst. unfold marked_in. cbn.
+    destruct (str_eqb u name); [|reflexivity].
+    induction (mmsgs (get_box st' name)) as [|x l IHl]; [reflexivity|]. cbn. rewrite <- IHl. reflexivity.
+  - destruct rt as [|r rt]; [discriminate H|]. cbn [process_deletes] in H.
+    apply IH in H. rewrite H. clear H.
+    destruct (str_eqb u name) eqn:E; destruct r; unfold marked_in; cbn [combine existsb fst snd negb andb].
+    + reflexivity.
+    + rewrite remove_msg_box, E, filter_filter_and. apply filter_ext'. intros x.
+      unfold id_neqb. rewrite negb_orb. reflexivity.
+    + reflexivity.
+    + rewrite remove_msg_box, E. reflexivity.
+Qed.
+
+Lemma process_deletes_next u name ms : forall rt st st',
+  process_deletes u ms rt st = Some st' -> mnext (get_box st' name) = mnext (get_box st name).
+Proof.
+  induction ms as [|p ms IH]; intros rt st st' H.
+  - cbn in H. inversion H; subst. reflexivity.
+  - destruct rt as [|r rt]; [discriminate H|]. cbn [process_deletes] in H.
+    apply IH in H. rewrite H. destruct r; [reflexivity|apply remove_msg_next].
+Qed.
+
+Theorem quit_deletes_exactly_marked fl st0 evs args :
+  let w := run fl (init_world st0) evs in
+  s_state (w_sess w) = Trans ->
+  let w' := wstep fl w (ECmd (CCmd QUIT args)) in
+  s_state (w_sess w') = Closed /\
+  forall name,
+    mnext (get_box (w_store w') name) = mnext (get_box (w_store w) name) /\
+    mmsgs (get_box (w_store w') name) =
+      if str_eqb (s_user (w_sess w)) name
+      then filter (fun m => negb (marked_msg (w_sess w) m)) (mmsgs (get_box (w_store w) name))
+      else mmsgs (get_box (w_store w) name).
+Proof.
+  cbn zeta. set (w := run fl (init_world st0) evs). intros Ht.
+  assert (Hi : inv (w_sess w)) by (apply run_inv, init_inv).
+  cbn [wstep]. unfold do_cmd, is_open, step. rewrite Ht. cbn [trans_handler].
+  destruct (process_deletes (s_user (w_sess w)) (s_msgs (w_sess w)) (s_retain (w_sess w)) (w_store w))
+    as [st'|] eqn:Ep.
+  - cbn [is_panic r_plus mk r_body].
+    destruct (w_wfail w); cbn [w_sess w_store set_state s_state]; (split; [reflexivity|]); intros name;
+      (split; [eapply process_deletes_next; exact Ep|eapply process_deletes_box; exact Ep]).
+  - exfalso. eapply process_deletes_some; [exact Hi|exact Ep].
+Qed.
+
+(** * no_quit_no_delete *)
+
+Theorem no_quit_no_delete fl evs : forall w,
+  (forall pre e post, evs = pre ++ e :: post -> commits (run fl w pre) e = false) ->
+  w_store (run fl w evs) = fold_left ext_step evs (w_store w).
+Proof.
+  induction evs as [|e evs IH]; intros w H; [reflexivity|].
+  rewrite run_cons. cbn [fold_left].
+  destruct (wstep_facts fl w e) as (_ & _ & _ & F4 & _).
+  rewrite <- F4 by (apply (H [] e evs); reflexivity).
+  apply IH. intros pre e' post E. rewrite <- run_cons. apply (H (e :: pre) e' post).
+  rewrite E. reflexivity.
+Qed.
+
+(** Purely syntactic corollary: a connection on which no QUIT line is ever sent - dropped
+    after any command, in any state - leaves the store to the other clients. *)
+Definition is_quit_event (e : event) : bool :=
+  match ev_cmd e with Some c => is_quit c | None => false end.
+
+Corollary no_quit_line_no_delete fl evs w :
+  (forall e, In e evs -> is_quit_event e = false) ->
+  w_store (run fl w evs) = fold_left ext_step evs (w_store w).
+Proof.
+  intros H. apply no_quit_no_delete. intros pre e post E.
+  assert (Hin : In e evs) by (rewrite E; apply in_or_app; right; left; reflexivity).
+  specialize (H e Hin). unfold commits, is_quit_event in *.
+  destruct (s_state (w_sess (run fl w pre))); try reflexivity.
+  destruct (ev_cmd e); [exact H|reflexivity].
+Qed.
+
+(** QUIT before login commits nothing either (it is not a TRANSACTION-state QUIT). *)
+Corollary auth_quit_no_delete fl w args :
+  s_state (w_sess w) = Auth ->
+  w_store (wstep fl w (ECmd (CCmd QUIT args))) = w_store w.
+Proof.
+  intros Ha. destruct (wstep_facts fl w (ECmd (CCmd QUIT args))) as (_ & _ & _ & F4 & _).
+  apply F4. unfold commits. rewrite Ha. reflexivity.
+Qed.
+
+(** * total_no_panic, progress *)
+
+Lemma run_no_panic fl evs : forall w,
+  winv w -> (forall r, In r (w_out w) -> is_panic r = false) ->
+  forall r, In r (w_out (run fl w evs)) -> is_panic r = false.
+Proof.
+  induction evs as [|e evs IH]; intros w Hi Ho; [exact Ho|].
+  rewrite run_cons. destruct (wstep_facts fl w e) as (F1 & _ & _ & _ & _ & F6).
+  apply IH; [auto|]. intros r Hr. destruct (F6 Hi r Hr); auto.
+Qed.
+
+Theorem total_no_panic fl st0 evs r :
+  In r (w_out (run fl (init_world st0) evs)) -> is_panic r = false.
+Proof.
+  apply run_no_panic; [apply init_inv|]. intros r0 [<-|[]]. reflexivity.
+Qed.
+
+(** Every command line handed to an open session gets exactly one reply, and the session
+    is then either still open or cleanly closed: nothing wedges. *)
+Theorem progress fl st0 evs c :
+  let w := run fl (init_world st0) evs in
+  is_open w = true -> w_wfail w = false ->
+  exists r, w_out (do_cmd fl w c) = w_out w ++ [r] /\ is_panic r = false.
+Proof.
+  cbn zeta. set (w := run fl (init_world st0) evs). intros Ho Hw.
+  assert (Hi : inv (w_sess w)) by (apply run_inv, init_inv).
+  unfold do_cmd. rewrite Ho, Hw.
+  destruct (step fl (w_store w) (w_sess w) c) as [[s' r] st'] eqn:Es.
+  exists r. split; [reflexivity|].
+  destruct (step_facts _ _ _ _ _ _ _ Es) as (_ & F2 & _). auto.
+Qed.
+
+(** * Non-vacuity *)
+
+Definition ex_store : store :=
+  deliver (deliver (deliver [] [98] [65; 10]) [98] [66; 66; 10]) [98] [67; 10].
+Definition ln (l : list N) : event := ELine (l ++ [13; 10]).
+Definition ex_hist : list event :=
+  [ln [65; 80; 79; 80; 32; 98; 32; 120];      (* APOP b x *)
+   ln [68; 69; 76; 69; 32; 50];               (* DELE 2 *)
+   EDeliver [98] [68; 10];                    (* somebody's mail arrives *)
+   ERemove [98] [0]].                         (* another client removes message 1 *)
+
+Example ex_trans : s_state (w_sess (run Mem (init_world ex_store) ex_hist)) = Trans.
+Proof. vm_compute. reflexivity. Qed.
+
+Example ex_listing : listing (w_sess (run Mem (init_world ex_store) ex_hist)) = [(1, 2); (3, 2)].
+Proof. vm_compute. reflexivity. Qed.
+
+Example ex_quit_commits :
+  map sid (mmsgs (get_box (w_store (run Mem (init_world ex_store)
+        (ex_hist ++ [ln [113; 117; 105; 116]]))) [98])) = [[2]; [3]].
+Proof. vm_compute. reflexivity. Qed.
+
+Example ex_eof_keeps :
+  map sid (mmsgs (get_box (w_store (run Mem (init_world ex_store) (ex_hist ++ [EEof]))) [98]))
+  = [[1]; [2]; [3]].
+Proof. vm_compute. reflexivity. Qed.
+
+Example ex_no_quit_hyp : forall e, In e (ex_hist ++ [EEof]) -> is_quit_event e = false.
+Proof. intros e H. repeat (destruct H as [<-|H]; [vm_compute; reflexivity|]). destruct H. Qed.
